@@ -476,6 +476,12 @@ class Interp:
                 res = self.is_none(l)
             elif isinstance(l, Const) and isinstance(r, Const):
                 res = l.v is r.v
+            elif isinstance(l, (ClsRef, Ext)) and isinstance(r, (ClsRef, Ext)):
+                res = l.dotted == r.dotted  # the same class / module object
+            elif isinstance(l, EnumV) and isinstance(r, EnumV):
+                res = l.dotted == r.dotted
+            elif isinstance(l, Func) and isinstance(r, Func):
+                res = (l.mod, l.qual) == (r.mod, r.qual) and l.self_val is r.self_val
             else:
                 res = l is r
             return res != neg
